@@ -1181,6 +1181,16 @@ class Interp:
                     term = ("first", L1, val, args[1])
                     self._event("call", ("call", f, args, kwargs), term, st, n, frame)
                     return term
+        # operator.itemgetter(k)(x) is x[k]; operator.attrgetter('a')(x) is x.a; operator.methodcaller('m', ..)(x) is x.m(..)
+        if f[0] == "call" and f[1][0] in ("attr", "name") and simple and len(args) == 1 and not kwargs and f[2]:
+            made = f[1][2] if (f[1][0] == "attr" and f[1][1] == ("name", "operator")) else f[1][1] if f[1][0] == "name" else None
+            if made == "itemgetter" and len(f[2]) == 1 and not f[3]:
+                return self.subscript(args[0], f[2][0])
+            if made == "attrgetter" and len(f[2]) == 1 and not f[3] and f[2][0][0] == "const" and isinstance(f[2][0][2], str) \
+                    and "." not in f[2][0][2]:
+                return ("attr", args[0], f[2][0][2])
+            if made == "methodcaller" and f[2][0][0] == "const" and isinstance(f[2][0][2], str):
+                return self._apply(("attr", args[0], f[2][0][2]), tuple(f[2][1:]), tuple(f[3]), simple, n, frame, st)
         # functools.partial(g, a, ..)(b, ..) is g(a, .., b, ..)
         if f[0] == "call" and f[1] in (("name", "partial"), ("attr", ("name", "functools"), "partial")) and f[2] and simple \
                 and not any(a[0] == "star" for a in f[2]) and not any(k == "**" for k, _ in f[3]):
@@ -1241,6 +1251,9 @@ class Interp:
             return True
         if g[0] == "call" and g[1] in (("name", "partial"), ("attr", ("name", "functools"), "partial")) and g[2]:
             return self._is_package_callable(g[2][0], n, frame)
+        if g[0] == "call" and g[2] and ((g[1][0] == "attr" and g[1][1] == ("name", "operator") and g[1][2] in ("itemgetter", "attrgetter", "methodcaller"))
+                                        or (g[1][0] == "name" and g[1][1] in ("itemgetter", "attrgetter", "methodcaller"))):
+            return True
         if g[0] in ("name", "attr") and frame.func is not None:
             tgt, _s = self._resolve(n, g, frame)
             return tgt is not None and self.inline(tgt)
@@ -1249,6 +1262,11 @@ class Interp:
     def _synth_map(self, star: bool, g: Term, iters: Tuple[Term, ...], n: ast.Call, frame: Frame, st: _State) -> Optional[Term]:
         if star and len(iters) != 1:
             return None
+        # map(g, (a, b, c)) over a display of a few items: the items' results, one by one (`x, y, z = map(norm, (x, y, z))`)
+        if not star and len(iters) == 1:
+            items = self._literal_items(iters[0])
+            if items is not None and 0 < len(items) <= self.MAX_UNROLL:
+                return ("tuple", tuple(self._apply(g, (item,), (), True, n, frame, st) for item in items))
         it = iters[0] if len(iters) == 1 else ("call", ("name", "zip"), tuple(iters), ())
         fz = self._fusable(it, True)
         obj = self._new_obj("genexp", (), n, st)
